@@ -41,6 +41,9 @@ type shared struct {
 
 // frame is an ExecutionContext.
 type frame struct {
+	script []byte
+	sid    int // index of the script in VM.Scripts (0 = entry)
+	rv     int // return value count expected by the loader (-1 = any)
 	ip     int
 	sh     *shared
 	locals []*Item // nil = not initialised
@@ -63,6 +66,14 @@ type VM struct {
 	CycleMade bool
 	// Thrown counts exceptions raised (THROW or engine-raised catchable ones).
 	Thrown int
+
+	// Scripts/RV: the scripts the check's miniature SYSCALL host can load
+	// (Scripts[0] is the entry script) and their return-value counts.
+	Scripts [][]byte
+	RV      []int
+	// PreGorgon selects the behaviour before the Gorgon hardfork (SHL/SHR by
+	// zero leave the operand untouched, HASKEY has no upper index bound).
+	PreGorgon bool
 
 	frames   []*frame
 	uncaught *Item
@@ -95,7 +106,16 @@ func (vm *VM) touch(it *Item) {
 // rvcount -1: everything left on the evaluation stack is the result).
 func New(script []byte) *VM {
 	vm := &VM{Script: script}
-	vm.frames = []*frame{{sh: &shared{}}}
+	vm.frames = []*frame{{script: script, rv: -1, sh: &shared{}}}
+	return vm
+}
+
+// NewHost is New plus the scripts the miniature host can load with SYSCALL
+// (extra[i] gets service id i+1, rv[i] is its return-value count).
+func NewHost(script []byte, extra [][]byte, rv []int) *VM {
+	vm := New(script)
+	vm.Scripts = append([][]byte{script}, extra...)
+	vm.RV = append([]int{-1}, rv...)
 	return vm
 }
 
@@ -131,8 +151,8 @@ type instr struct {
 
 // decode is Script.GetInstruction(ip): "ip >= Length => RET" is handled by the
 // caller; an undefined opcode or an operand reaching beyond the script faults.
-func (vm *VM) decode(ip int) instr {
-	s := vm.Script
+func (vm *VM) decode(f *frame, ip int) instr {
+	s := f.script
 	b := s[ip]
 	if !Defined(b) {
 		fault("undefined opcode 0x%02x", b)
@@ -179,10 +199,10 @@ func (vm *VM) step() {
 	vm.Steps++
 	f := vm.cur()
 	var in instr
-	if f.ip >= len(vm.Script) {
+	if f.ip >= len(f.script) {
 		in = instr{op: RET, size: 1} // "CurrentInstruction ?? Instruction.RET"
 	} else {
-		in = vm.decode(f.ip)
+		in = vm.decode(f, f.ip)
 	}
 	vm.jumping = false
 	func() {
@@ -392,16 +412,16 @@ func (vm *VM) reverse(n int) {
 // (JMP-like: "position >= Script.Length" faults; CALL and the exception
 // machinery assign InstructionPointer, whose setter admits Length); which of
 // them is normative could not be settled offline.
-func (vm *VM) atEnd(pos int) {
-	if pos == len(vm.Script) {
+func (vm *VM) atEnd(f *frame, pos int) {
+	if pos == len(f.script) {
 		vm.undet("control-transfer-to-end-of-script")
 	}
 }
 
 // jump is ExecuteJump: the target must be inside the script.
 func (vm *VM) jump(f *frame, pos int) {
-	vm.atEnd(pos)
-	if pos < 0 || pos >= len(vm.Script) {
+	vm.atEnd(f, pos)
+	if pos < 0 || pos >= len(f.script) {
 		fault("jump out of range: %d", pos)
 	}
 	f.ip = pos
@@ -411,8 +431,8 @@ func (vm *VM) jump(f *frame, pos int) {
 // setIP is the InstructionPointer setter used by CALL, ENDTRY, ENDFINALLY and
 // exception dispatch: [0, Length] is admitted.
 func (vm *VM) setIP(f *frame, pos int) {
-	vm.atEnd(pos)
-	if pos < 0 || pos > len(vm.Script) {
+	vm.atEnd(f, pos)
+	if pos < 0 || pos > len(f.script) {
 		fault("instruction pointer out of range: %d", pos)
 	}
 	f.ip = pos
@@ -421,7 +441,7 @@ func (vm *VM) setIP(f *frame, pos int) {
 // call is ExecuteCall: a clone of the current context positioned at pos;
 // "InvocationStack.Count >= MaxInvocationStackSize => fault".
 func (vm *VM) call(f *frame, pos int) {
-	nf := &frame{sh: f.sh}
+	nf := &frame{script: f.script, sid: f.sid, rv: 0, sh: f.sh}
 	vm.setIP(nf, pos)
 	if len(vm.frames) >= MaxInvocationStackSize {
 		fault("MaxInvocationStackSize exceeded")
@@ -441,6 +461,14 @@ func (vm *VM) ret() {
 		f.sh.stack = nil
 		f.sh.static = nil // UnloadContext: static fields are released
 		vm.State = HALT
+	} else if c := vm.cur(); c.sh != f.sh {
+		// A context loaded with its own evaluation stack returns: "RVCount
+		// doesn't match with EvaluationStack" faults, otherwise the whole
+		// stack is copied (in order) onto the caller's.
+		if f.rv >= 0 && len(f.sh.stack) != f.rv {
+			fault("RET: return value count %d, expected %d", len(f.sh.stack), f.rv)
+		}
+		c.sh.stack = append(c.sh.stack, f.sh.stack...)
 	}
 	vm.jumping = true
 }
